@@ -230,3 +230,52 @@ Definition run_nmon (vars : list (String.string * String.string)) (cv : String.s
   if forallb (fun x => match @NodeName.erase ExtZVal vidx cv du p pu x with Some g => past_only g | None => false end) F
   then Some (snd (OnlineNamed.nmon_run ExtZArith pk_std vidx cv bnd F (OnlineNamed.ndict_init vidx cv bnd F) w 0 n))
   else None.
+(* ---- unit normalisation of whole formulas (UnitsLift.v): one result line per specification.
+   Numbers travel as decimal texts (bounds around 2^63 periods and 2^1024 default units). ---- *)
+From Coq Require Import Ascii String.
+From RV Require UnitsLift.
+
+Fixpoint ul_dec (acc : Z) (s : string) : Z :=
+  match s with
+  | EmptyString => acc
+  | String c r => ul_dec (10 * acc + Z.of_nat (nat_of_ascii c - 48))%Z r
+  end.
+Definition ul_z (s : string) : Z :=
+  match s with
+  | String "-"%char r => (- ul_dec 0 r)%Z
+  | _ => ul_dec 0 s
+  end.
+Definition ul_q (n d : string) : Q := Qmake (ul_z n) (Z.to_pos (ul_z d)).
+Fixpoint ul_digits (fuel : nat) (z : Z) (acc : string) : string :=
+  match fuel with
+  | O => acc
+  | S f =>
+      let acc' := String (ascii_of_nat (48 + Z.to_nat (z mod 10))) acc in
+      if (z <? 10)%Z then acc' else ul_digits f (z / 10)%Z acc'
+  end.
+Definition ul_show (z : Z) : string :=
+  if (z <? 0)%Z then String "-"%char (ul_digits (S (Z.to_nat (Z.log2 (- z)))) (- z)%Z EmptyString)
+  else ul_digits (S (Z.to_nat (Z.log2 z))) z EmptyString.
+
+Definition ul_join (l : list string) : string := fold_right (fun a b => String.append " " (String.append a b)) EmptyString l.
+Definition ul_code {A} (o : outcome A) (k : A -> list string) : string :=
+  match o with
+  | Ok a => String.append "0" (ul_join (k a))
+  | Rtamt => "1"%string
+  | Crash => "2"%string
+  end.
+Definition ul_pairs (l : list (Z * Z)) : list string := flat_map (fun be => [ul_show (fst be); ul_show (snd be)]) l.
+Definition ul_qpairs (l : list (Q * Q)) : list string :=
+  flat_map (fun be => [ul_show (Qnum (fst be)); ul_show (Zpos (Qden (fst be))); ul_show (Qnum (snd be)); ul_show (Zpos (Qden (snd be)))]) l.
+Definition ul_nbounds (p : zformula) : list (Z * Z) :=
+  map (fun be => (Z.of_nat (fst be), Z.of_nat (snd be))) (UnitsLift.bounds (UnitsLift.of_formula p)).
+(* after pastify(): the operators of the pastified specification are built, then check_pastified_bounds converts the written
+   bounds; not computed for specifications with bounds of ~2^63 samples (skip = true) *)
+Definition ul_past (skip : bool) (st : UnitsLift.settings) (ce : UnitsLift.cenv) (u : @UnitsLift.uformula ExtZVal) : outcome (list (Z * Z)) :=
+  if skip then Ok [] else UnitsLift.rmap (fun p => ul_nbounds (pastify DelayOnce p (hor p)) ++ ul_nbounds p) (UnitsLift.normalize st ce u).
+Definition run_unitslift (skip : bool) (st : UnitsLift.settings) (ce : UnitsLift.cenv) (u : @UnitsLift.uformula ExtZVal) : string :=
+  String.append "PARSE " (String.append (ul_code (UnitsLift.parse_bounds (UnitsLift.s_du st) ce u) (fun _ => []))
+  (String.append " | DISC " (String.append (ul_code (UnitsLift.normalize_log st ce u) ul_pairs)
+  (String.append " | DENSE " (String.append (ul_code (UnitsLift.normalize_dense (UnitsLift.s_du st) ce u) (fun q => ul_qpairs (UnitsLift.bounds q)))
+  (String.append " | PAST " (ul_code (ul_past skip st ce u) ul_pairs))))))).
+Definition run_unless (ub : UnitsLift.ubound) (f g : @UnitsLift.uformula ExtZVal) : @UnitsLift.uformula ExtZVal := UnitsLift.unless_t ub f g.
